@@ -153,6 +153,7 @@ func checkC19(w *World, r *Report) {
 	c19Index(w, r, reach, parent)
 	c19Discarded(w, r, reach, parent)
 	c19Tables(w, r)
+	c19Recursion(w, r)
 	// premise: request goroutines recover (C01.8)
 	c01Recovery(w, r)
 }
